@@ -144,6 +144,7 @@ def cases(ctx):
                 out.append(["pipe", name, fi, o, "direct"])
             out.append(["pipe", name, fi, ["alpha"], "zoq"])
             out.append(["pipe", name, fi, None, "zoq"])
+            out.append(["pipe", name, fi, ["alpha"], "zoq2"])
     return out
 
 
@@ -177,6 +178,14 @@ def run_case(ctx, case) -> F.Outcome:
         zq.parent.mkdir(exist_ok=True)
         zq.write_text(f"# {qtext}\n")
         try:
+            if via == "zoq2":
+                # the page was first refreshed with a GROUPED form of the query (its body then
+                # holds group-header lines); the user then edits the query line and refreshes
+                grouped = Q.render_query(["note"], where, order, ["file"])
+                zq.write_text(f"# {grouped}\n")
+                swog.refresh_zoq_file(ix.zdir, H.db_url(ix.zdir), zq)
+                old = zq.read_text().split("\n")
+                zq.write_text("\n".join([f"# {qtext}"] + old[1:]))
             swog.refresh_zoq_file(ix.zdir, H.db_url(ix.zdir), zq)
             page_text = zq.read_text()
             if not page_text.endswith("\n"):
